@@ -19,7 +19,8 @@ RULE = ("Hypothesis draws (data family, image shape 2-D 12..24 per axis [rectang
         "dtype complex64/128, calib_width, kernel_width 2..6 <= calib_width <= min(shape), thresh in [0.005,0.1], crop in "
         "[0,0.99], max_iter in [2,100], each of thresh/crop/max_iter sometimes left at its default; a small class runs "
         "the all-default constructor). Data: complex Gaussian k-space, or centred FFT of (Gaussian-bump x linear-phase "
-        "maps | sigpy birdcage_maps) x image with |image| in [0.5,1.5] and random phase, all from default_rng(case seed). "
+        "maps | sigpy birdcage_maps) x image with |image| in [0.5,1.5] and random phase, all from default_rng(case seed), "
+        "times an overall scale in {1, 1e-3, 1e3}. "
         "Oracle per voxel: l2 norm over coils is exactly 0 or within 1e-5 of 1; exactly 0 where the returned eigenvalue "
         "<= crop and non-zero where it is > crop; coil 0 has |imag| <= 1e-6 and real >= 0; eigenvalues in [-1e-6, 1+1e-5]; "
         "maps.shape == ksp.shape; all values finite. Recovery class (parameters by construction inside the well-posed "
@@ -43,9 +44,9 @@ ASSUMPTIONS = [
     "recovery is asserted only where ESPIRiT's model is well posed for the generated map families (measured, see final "
     "report): thresh = 0.02 (default), max_iter >= 30, crop <= 0.95, calibration rows (calib_width-kernel_width+1) >= "
     "kernel_width+5 i.e. calib_width >= 2*kernel_width+4 (design said 2*kernel_width: measured errors reach 0.06 there "
-    "and 0.021 at 2*kernel_width+3), columns coils*kernel_width^d >= 1.5*(kernel_width+4)^d in 2-D (a null space must "
-    "exist: kernel 4 -> >= 6 coils, kernel 5/6 -> >= 5 coils; kernel 2-3 or 2 coils give errors of 0.1-0.6 because no "
-    "null space exists), and in 3-D kernel_width = 4, calib_width = 12, coils >= 6, shape 12^3 (larger 3-D kernels cost "
+    "and 0.021 at 2*kernel_width+3), columns coils*kernel_width^d >= 1.7*(kernel_width+4)^d in 2-D (a null space must "
+    "exist: kernel 4 -> >= 7 coils, kernel 5 -> >= 6, kernel 6 -> >= 5; kernel 2-3 or 2 coils give errors of 0.1-0.6 "
+    "because no null space exists), and in 3-D kernel_width = 4, calib_width = 12, coils >= 6, shape 12^3 (larger 3-D kernels cost "
     "> 3 s per case)",
     "interior = central half of every image axis [n//4, n - n//4)",
     "3-D cases are limited to coils*kernel_width^3 <= 520 (one Gram update per kernel; cost)",
@@ -87,21 +88,22 @@ def make_data(case):
     nd = len(shape)
     rng = np.random.default_rng(case["seed"])
     fam = case["family"]
+    scale = case.get("scale", 1.0)  # ESPIRiT is invariant to the overall k-space scale (thresh is relative to s_max)
     if fam == "gauss":
         ksp = rng.standard_normal([nc] + shape) + 1j * rng.standard_normal([nc] + shape)
-        return ksp.astype(case["dtype"]), None
+        return (scale * ksp).astype(case["dtype"]), None
     if fam == "bump":
         mps = bump_maps(nc, shape, rng)
     else:
         import sigpy.mri.sim as sim
         mps = np.asarray(sim.birdcage_maps([nc] + shape), np.complex128)
     img = rng.uniform(0.5, 1.5, shape) * np.exp(2j * np.pi * rng.uniform(0, 1, shape))
-    return cfft(mps * img, nd).astype(case["dtype"]), mps
+    return (scale * cfft(mps * img, nd)).astype(case["dtype"]), mps
 
 
 def rec_min_coils(kw, nd):
     if nd == 2:
-        return int(np.ceil(1.5 * (kw + 4) ** 2 / kw ** 2 - 1e-9))
+        return int(np.ceil(1.7 * (kw + 4) ** 2 / kw ** 2 - 1e-9))
     return 6
 
 
@@ -141,6 +143,7 @@ def st_case(draw):
     dtype = draw(st.sampled_from(["complex128", "complex128", "complex64"]))
     seed = draw(A.seeds)
     plain = draw(st.integers(0, 3)) == 0
+    scale = draw(st.sampled_from([1.0, 1.0, 1e-3, 1e3]))
     params = {}
     if cls == "defaults":
         fam = draw(st.sampled_from(["gauss", "bump", "bird"]))
@@ -188,7 +191,7 @@ def st_case(draw):
             if v is not None:
                 params[name] = v
     return {"cls": cls, "family": fam, "shape": shape, "nc": nc, "dtype": dtype, "seed": seed,
-            "params": params, "plain_run": plain}
+            "scale": scale, "params": params, "plain_run": plain}
 
 
 # ------------------------------------------------------------------ check
@@ -326,7 +329,9 @@ def check_case(case):
     if case["plain_run"]:
         r.label("plain-output-mode")
     r.nontrivial = nondefault or nd == 3 or ncrop > 0
-    r.sig = "%s|%s|%d|%s|%s" % (case["family"], shape, nc, case["dtype"], sorted(params.items()))
+    if case.get("scale", 1.0) != 1.0:
+        r.label("scaled-kspace")
+    r.sig = "%s|%s|%d|%s|%g|%s" % (case["family"], shape, nc, case["dtype"], case.get("scale", 1.0), sorted(params.items()))
     return r
 
 
